@@ -488,8 +488,19 @@ package operator
 //@   modifies b.err, b.targetPeers, b.targetLeaderStoreID
 
 // The operator constructors are surroundings of the schedulers and checkers (their steps are the subject of C08/C09).
+// CreateScatterRegionOperator (C11: leaders only to stores that accept leaders): the force-target-leader flag switches the
+// builder's store-state check off, so it may be set only together with a leader store the caller has vetted (non-zero
+// targetLeader); without one the builder chooses the leader with its own checks or the build fails. (Verified in mode
+// `leader` only; callers use the frame.)
 //@ func CreateScatterRegionOperator
-//@   assumed
+//@   props C11
+//@   option modesonly
+//@   ensures [checked-in-mode-leader] @leader true
+//@   at SetLeader 1 assert [only-a-vetted-leader-is-named] @leader targetLeader != 0 && arg0 == targetLeader
+//@   at EnableForceTargetLeader 1 assert [the-state-check-is-switched-off-only-for-a-vetted-leader] @leader targetLeader != 0
+//@   option nosafety
+//@   option assumecallpre
+//@   option assumeframe
 //@   modifies nothing
 
 // Operator.Check (used by the controller): advances the current step and the status of the operator; the status only
